@@ -67,6 +67,7 @@ var wOpens = []wTok{
 var wLeaves = []wTok{
 	{"leaf", "br", "<br>"}, {"leaf", "img", "<img>"}, {"leaf", "img", "<img src=x>"}, {"leaf", "br", "<br/>"}, {"leaf", "b", "<b/>"}, {"leaf", "x", "<x/>"}, {"leaf", "my-y", "<my-y/>"},
 	{"leaf", "!", "<!-- c -->"}, {"leaf", "hr", "<hr>"},
+	{"leaf", "frame", "<frame src=x>"}, // a void element that is in the default skip-content set
 }
 
 // wVoidLeaves: the remaining void elements; fed only under policies that give void elements rules of their own
